@@ -25,6 +25,10 @@ def main():
         env['VERIF_REPO'] = tree
     try:
         r = subprocess.run(['git', '-C', tree, 'apply', patch])
+        if r.returncode != 0:      # the tree has moved on since the patch was made (hook / fix commits): merge instead
+            r = subprocess.run(['git', '-C', tree, 'apply', '--3way', patch])
+            if r.returncode == 0:
+                subprocess.run(['git', '-C', tree, 'reset', '-q'])
         if r.returncode != 0:
             print('patch does not apply'); return 2
         for p in props:
